@@ -183,7 +183,7 @@ func oracleHTTPServer(t failer, sel uint8, frag uint16, client, origin []byte) (
 			}()
 			select {
 			case <-done:
-			case <-time.After(20 * time.Second):
+			case <-time.After(completionBound / 3):
 				stuck = true
 			}
 			_ = pc.Close()
@@ -191,7 +191,7 @@ func oracleHTTPServer(t failer, sel uint8, frag uint16, client, origin []byte) (
 			select {
 			case n := <-got:
 				wrote = n > 0
-			case <-time.After(20 * time.Second):
+			case <-time.After(completionBound / 3):
 				stuck = true
 			}
 			return
